@@ -98,6 +98,9 @@ type GenOptions struct {
 	ReqChains bool
 	// DepSingles: some root (Single) fetches get DependsOnFetchIDs on an entity / batch fetch of the plan
 	DepSingles bool
+	// Taint (ValidateRequiredExternalFields): more @requires with nullable inputs, longer lists with duplicates and null
+	// items (de-duplicated / skipped representations before a failing entity), fields with @requires selected first
+	Taint bool
 }
 
 type Gen struct {
@@ -184,12 +187,19 @@ func (g *Gen) typeFields(t *TypeDef, nsub int, isQuery bool) {
 	if g.Opt.Requires && !isQuery {
 		// some scalar fields require another scalar field of the same type owned by a different subgraph
 		for _, f := range t.Fields {
-			if f.Scalar == 0 || !g.R.Chance(1, 3) {
+			if g.Opt.Taint {
+				if f.Scalar == 0 || !g.R.Chance(2, 3) {
+					continue
+				}
+			} else if f.Scalar == 0 || !g.R.Chance(1, 3) {
 				continue
 			}
 			for _, r := range t.Fields {
 				if r != f && r.Scalar != 0 && r.Owner != f.Owner && r.Requires == nil && (g.Opt.NullableReq || !r.Nullable) {
 					f.Requires = r
+					if g.Opt.Taint && g.R.Chance(3, 4) {
+						r.Nullable = true
+					}
 					break
 				}
 			}
@@ -217,6 +227,9 @@ func (g *Gen) Universe() *Universe {
 	nsub := g.Opt.Subgraphs
 	if nsub < 2 {
 		nsub = 2 + g.R.Pick(3)
+		if g.Opt.Taint && nsub < 3 {
+			nsub = 3
+		}
 	}
 	s := &Schema{NSub: nsub, byN: map[string]*TypeDef{}}
 	for _, n := range entityTypeNames {
@@ -228,6 +241,25 @@ func (g *Gen) Universe() *Universe {
 	s.Query = &TypeDef{Name: "Query"}
 	g.typeFields(s.Query, nsub, true)
 	s.byN["Query"] = s.Query
+	if g.Opt.Taint {
+		// the provider of a required field should be a nested (batch) entity fetch: the link that leads to the type is
+		// owned by another subgraph than the required field; mostly lists
+		for _, t := range append([]*TypeDef{s.Query}, s.Types...) {
+			for _, l := range t.Fields {
+				if l.Target == "" {
+					continue
+				}
+				if g.R.Chance(2, 3) {
+					l.List = true
+				}
+				for _, y := range s.byN[l.Target].Fields {
+					if y.Requires != nil && y.Requires.Owner == l.Owner {
+						l.Owner = (l.Owner + 1 + g.R.Pick(nsub-1)) % nsub
+					}
+				}
+			}
+		}
+	}
 	u := &Universe{Schema: s, Ents: map[string]*Ent{}, ErrOn: map[string]bool{}, Unknown: map[string]bool{}}
 	ids := []string{"1", "2", "3", "4"}
 	for _, t := range s.Types {
@@ -258,9 +290,13 @@ func (g *Gen) Universe() *Universe {
 					continue
 				}
 				n := g.R.Pick(4)
+				nullIn := 8
+				if g.Opt.Taint {
+					n, nullIn = 2+g.R.Pick(5), 5
+				}
 				l := make([]*Ref, 0, n)
 				for i := 0; i < n; i++ {
-					if f.ItemNullable && g.R.Chance(1, 8) {
+					if f.ItemNullable && g.R.Chance(1, nullIn) {
 						l = append(l, nil)
 					} else {
 						l = append(l, &Ref{f.Target, common.PickOf(g.R, cand)}) // duplicates wanted (de-duplication)
